@@ -58,6 +58,40 @@ fn keywords_instance(n: usize, width: usize) -> Instance {
     Instance { name: format!("{n} keywords k{}..", "0".repeat(width)), cfg: Cfg::single(kws.iter().enumerate().map(|(i, k)| CPat::new(k, i)).collect()), probes, states: n * (width + 1) + 1 }
 }
 
+/// `n` keywords followed by a catch-all identifier pattern listed LAST: a keyword alone is the
+/// keyword (tie, earlier pattern), a keyword followed by another letter is one identifier (longest
+/// match of a pattern that sits `n` positions behind the keyword).
+fn keywords_ident_instance(n: usize, width: usize) -> Instance {
+    let kws: Vec<String> = (0..n).map(|i| format!("k{:0w$}", i, w = width)).collect();
+    let mut pats: Vec<CPat> = kws.iter().enumerate().map(|(i, k)| CPat::new(k, i)).collect();
+    pats.push(CPat::new("[a-z0-9]+", n));
+    pats.push(CPat::new(" ", n + 1));
+    let mut probes = vec![];
+    for i in [0, 1, 2, 100, 255, 256, 257, 300, 511, 512, 513, 1023, 1024, 1025, n / 2, n - 2, n - 1] {
+        if i < n {
+            let k = &kws[i];
+            let l = k.len();
+            probes.push((k.clone(), vec![(i, 0, l)]));
+            probes.push((format!("{k}x"), vec![(n, 0, l + 1)]));
+            probes.push((format!("{k} {k}z {k}"), vec![(i, 0, l), (n + 1, l, l + 1), (n, l + 1, 2 * l + 2), (n + 1, 2 * l + 2, 2 * l + 3), (i, 2 * l + 3, 3 * l + 3)]));
+        }
+    }
+    Instance { name: format!("{n} keywords + identifier pattern listed last"), cfg: Cfg::single(pats), probes, states: n * (width + 1) + 3 }
+}
+
+/// One pattern that is an alternation of `n` keywords.
+fn alternation_instance(n: usize) -> Instance {
+    let kws: Vec<String> = (0..n).map(|i| format!("k{:04}", i)).collect();
+    let mut probes = vec![];
+    for i in 0..n {
+        if i < 40 || i % 7 == 0 || i + 40 > n {
+            probes.push((kws[i].clone(), vec![(5, 0, 5)]));
+        }
+    }
+    probes.push(("k000".to_string(), vec![]));
+    Instance { name: format!("one pattern with {n} alternatives"), cfg: Cfg::single(vec![CPat::new(&kws.join("|"), 5)]), probes, states: n * 6 + 2 }
+}
+
 fn copies_instance(n: usize, pat: &str, text: &str) -> Instance {
     // n copies of one pattern with distinct token types: the first one wins
     let l = text.len();
@@ -88,6 +122,9 @@ pub fn run(tier: Tier) -> ! {
         rep_instance(1500, "b"),
         rep_instance(2200, "bc"),
         keywords_instance(1000, 4),
+        keywords_ident_instance(1300, 4),
+        alternation_instance(300),
+        alternation_instance(1200),
         keywords_instance(4200, 4),
         copies_instance(5000, "a", "a"),
         copies_instance(1300, "ab", "ab"),
